@@ -281,7 +281,10 @@ func parseIndexContent(src []byte, header indexStart) ([][]byte, int, error) {
 		return nil, 0, nil
 	}
 	oSize := int(header.offSize)
-	offsetArraySize := int(header.count+1) * oSize
+	if oSize < 1 || 4 < oSize {
+		return nil, 0, fmt.Errorf("invalid offset size %d", oSize)
+	}
+	offsetArraySize := (int(header.count) + 1) * oSize // as int, to avoid overflow
 	if L := len(src); L < offsetArraySize {
 		return nil, 0, fmt.Errorf("reading INDEX offsets: EOF: expected length: %d, got %d", offsetArraySize, L)
 	}
